@@ -23,6 +23,8 @@ def gen_full(rng, size="small", force=None):
     nv = rng.randint(1, 3 if size == "small" else 5)
     use_matrix = p(0.8)
     td = use_matrix and p(0.25)
+    if force and force.get("td"):
+        use_matrix = td = True
     N = n + 2 * nv
     F = {k: p(q) for k, q in dict(capacity=.6, windows=.5, precedence=.4, groups=.3, alternates=.25, mixing=.3, initial=.3,
                                   dur_groups=.3, multipliers=.4, targets=.3, minstops=.25, limits=.5, attrs=.3,
@@ -218,6 +220,13 @@ def gen_full(rng, size="small", force=None):
     for ve in vehicles:
         if "speed" not in ve and not use_matrix and "defaults" not in inp:
             ve["speed"] = 10
+    if force and force.get("td"):
+        # departures in the first minute of a frame, off the minute: vehicle start times and stop durations with odd seconds
+        for ve in vehicles:
+            ve["start_time"] = rfc(T0 + rng.choice([1800, 5400]) + rng.choice([0, 1, 17, 30, 59, 60, -1, -30]))
+        for st_ in stops:
+            if "duration" in st_ and rng.random() < 0.5:
+                st_["duration"] = st_["duration"] + rng.choice([1, 7, 31, 59])
     opts = gen_options(rng)
     if F["capacity"] and rng.random() < (force or {}).get("capacity_objective", 0.2):
         # capacity as an objective: the constraint of one resource (or of all) switched off, its excess penalised instead
